@@ -78,6 +78,9 @@ Definition run_c14_case (x : sexp) : sexp :=
   | Ls [At "c14"; ex; sx; ox; ix; Ls (At "ops" :: ops)] =>
       match env_of ex, schema_of DEPTH sx, strs_of_order ox, schema_of DEPTH ix with
       | Some e, Some s, Some order, Some si =>
+          (* the boolean side conditions of the C14 theorems hold for every generated case *)
+          if negb (luniq s && luniq si && refs_to_objects e s && refs_to_objects e si && ns_names_ok (e_ext e))
+          then bad "c14 side condition" else
           match link_build C14_LFUEL [] s [] with
           | Ok lt0 =>
               let '(states, fin) := run_order e s order lt0 in
